@@ -23,7 +23,9 @@ func (g *G) Pick(l []string) string { return l[g.R.Intn(len(l))] }
 
 var idPoolAll = []string{"a", "b", "c", "d", "e", "f", "n+++1", "é", "pkg-1.0", "x y", "a1", "a11", "a+", "a++"}
 var strPool = []string{"x", "y", "v1", "é:+", "(c) 2024", "Apache-2.0", "a b", ""}
-var purlPool = []string{"pkg:npm/a@1", "pkg:npm/b@2", "pkg:deb/debian/c@3", "pkg:/npm/d@4", "pkg:golang/e"}
+var purlPool = []string{"pkg:npm/a@1", "pkg:npm/b@2", "pkg:deb/debian/c@3", "pkg:/npm/d@4", "pkg:golang/e",
+	// types that are textual prefixes of one another, and a name equal to a type
+	"pkg:go/f@1", "pkg:gem/g", "pkg:gemfury/h", "pkg:generic/npm"}
 var hashVals = []string{"aa", "bb", "cc", ""}
 var EdgeTypes = []int{5, 10, 0, 1, 44, 77}
 
@@ -116,6 +118,10 @@ func (g *G) AttrValue(f AttrField) any {
 		}
 		return g.Pairs([]int{1, 2, 3}, hashVals)
 	case "date":
+		if g.Chance(0.08) {
+			// the epoch second itself: an absent date must not be mistaken for it
+			return []any{float64(0), float64(g.Pick2([]int{0, 500000000}))}
+		}
 		return []any{float64(1700000000 + g.Int(5)*86400), float64(g.Pick2([]int{0, 0, 500}))}
 	case "persons":
 		l := []any{}
